@@ -1416,8 +1416,34 @@ fn replay(v: &Value) -> CaseReport {
     run_case(&case)
 }
 
+/// C09 only: scenarios in which one thread adds a signal nobody watches yet - half of the time
+/// the highest-numbered one - while another thread is already delivering it and the consumer
+/// keeps scanning (the general generator produces this shape in one case of eight; seed C09-3
+/// was caught on three seeds of four before this focus existed)
+fn add_race_focus() -> BoxedStrategy<IterCase> {
+    strategy(false)
+        .prop_map(|mut c| {
+            let sig = if c.polls % 2 == 0 { 2 } else { c.polls % 3 };
+            c.init.retain(|s| *s % 3 != sig);
+            if c.init.is_empty() {
+                c.init.push((sig + 1) % 3);
+            }
+            while c.others.len() < 2 {
+                c.others.push(vec![]);
+            }
+            if !matches!(c.others[0].first(), Some(IOp::AddSignal { sig: s }) if *s == sig) {
+                c.others[0].insert(0, IOp::AddSignal { sig });
+            }
+            c.others[1].insert(0, IOp::Deliver { sig });
+            c.others[1].insert(1, IOp::Deliver { sig });
+            c.failed_ctor = 0;
+            c
+        })
+        .boxed()
+}
+
 fn w09(def: &PropDef, args: &WorkerArgs) -> WorkerReport {
-    let s = prop_oneof![12 => strategy(false).prop_map(IterAny::Sched), 1 => crate::adapters::strategy().prop_map(IterAny::Adapter)].boxed();
+    let s = prop_oneof![12 => strategy(false).prop_map(IterAny::Sched), 1 => crate::adapters::strategy().prop_map(IterAny::Adapter), 3 => add_race_focus().prop_map(IterAny::Sched)].boxed();
     generic_worker(def, args, s, &run_any)
 }
 fn w10(def: &PropDef, args: &WorkerArgs) -> WorkerReport {
